@@ -70,6 +70,40 @@ def test(patch, ids, tier="quick"):
         drop(d)
     return res
 
+def report():
+    """Writes RESULTS.md from results/*.json (one file per patch, written by 'all') and seeded/*/meta.json."""
+    lines = ["# Sensitivity results", "",
+             "Each row: a deliberately broken copy of /repo HEAD (never /repo itself), whether the stock 52-test suite",
+             "still passes with it, and what the property's own check (quick tier, seed 1, regression replay tier off)",
+             "reported.  `stock FAIL` rows are changes the existing tests already catch; they are kept only as a sanity",
+             "check of the checks.  Regenerate with `sensitivity/mut.py all && sensitivity/mut.py report`.", "",
+             "## Hand-written changes and reverted repairs (`patches/`)", "",
+             "| patch | stock suite | check | detected | signature | wall s |", "|---|---|---|---|---|---|"]
+    rdir = os.path.join(HERE, "results")
+    for f in sorted(os.listdir(rdir)) if os.path.isdir(rdir) else []:
+        r = json.load(open(os.path.join(rdir, f)))
+        for k, v in r.items():
+            if isinstance(v, dict):
+                sig = " ".join(h.strip() for h in v.get("head", [])[1:2])
+                lines.append("| %s | %s | %s | %s | %s | %s |" % (r["patch"].replace(".diff", ""), r.get("stock_tests"), k,
+                                                              "yes" if v.get("detected") else "**NO** (exit %s)" % v.get("exit"), sig, v.get("wall")))
+    lines += ["", "## Changes written by independent sub-agents (`/verif/seeded/`)", "",
+              "Each was confirmed first: applies to HEAD, stock suite passes with it, its own demonstration fails with it and passes without it.", "",
+              "| seeded change | property | detected by (quick tier) | not detected by |", "|---|---|---|---|"]
+    sdir = os.path.join(VERIF, "seeded")
+    for d in sorted(os.listdir(sdir)) if os.path.isdir(sdir) else []:
+        mp = os.path.join(sdir, d, "meta.json")
+        if not os.path.exists(mp):
+            continue
+        m = json.load(open(mp))
+        det = ["%s (%s)" % (k, " ".join(h.strip() for h in v.get("head", [])[1:2])) for k, v in m.get("checks", {}).items() if v.get("detected")]
+        nd = [k for k, v in m.get("checks", {}).items() if not v.get("detected")]
+        extra = m.get("note", "")
+        lines.append("| %s | %s | %s | %s |" % (d, m.get("property"), "; ".join(det) or "-", (", ".join(nd) or "-") + (" - " + extra if extra else "")))
+    open(os.path.join(HERE, "RESULTS.md"), "w").write("\n".join(lines) + "\n")
+    print("RESULTS.md written")
+
+
 if __name__ == "__main__":
     a = sys.argv[1:]
     if not a:
@@ -89,5 +123,9 @@ if __name__ == "__main__":
                 continue
             r = test(os.path.join(HERE, "patches", f), [pid])
             rows.append(r)
+            os.makedirs(os.path.join(HERE, "results"), exist_ok=True)
+            json.dump(r, open(os.path.join(HERE, "results", f.replace(".diff", ".json")), "w"), indent=1)
             print(f, r.get("stock_tests"), r.get(pid, r.get("apply")), flush=True)
         json.dump(rows, open(os.path.join(HERE, "last_results.json"), "w"), indent=1)
+    elif a[0] == "report":
+        report()
